@@ -135,6 +135,10 @@ def handleU (st : St) (n : Nat) (toks : List String) : Result := Id.run do
       | none =>
         let r := fail st n "C02" "accepted a checkpoint that does not authenticate under the log's key and origin"
         st := r.st; outs := outs ++ r.out
+        -- C12: is it another configured log's checkpoint that got filed here?
+        if cfgF.logs.any (fun o => o.id != logID && (Wit.parse o cp).isSome) then
+          let r2 := fail st n "C12" "a checkpoint of one configured log was accepted and stored under another log's ID"
+          st := r2.st; outs := outs ++ r2.out
       | some (c, nn) =>
         -- C04: returned note
         match iret with
@@ -189,7 +193,8 @@ def handleU (st : St) (n : Nat) (toks : List String) : Result := Id.run do
               if !good then
                 let r := fail st n "C01" s!"cosigned both sides of a split view: size {p.size} and size {c.size} are on different branches"
                 st := r.st; outs := outs ++ r.out
-        let s' := { s with accepted := s.accepted.insert lidS ({ size := c.size, root := c.hash } :: prevs) }
+        let s' := { s with accepted := s.accepted.insert lidS ({ size := c.size, root := c.hash } :: prevs),
+                           lastRet := s.lastRet.insert lidS iret.show }
         st := { st with sess := st.sess.insert sid s' }
   -- C09: independent rule list
   match linfo with
